@@ -159,3 +159,56 @@ Lemma ufind_sees_marked s p r : In r s -> rholds p r = true -> In (hid r) (snd (
 Proof.
   intros Hin Hh. cbn [hstep snd]. apply in_map. apply filter_In. split; assumption.
 Qed.
+
+(* ---- writes that name their records through the Model / Delete value (HKeys) ---- *)
+
+(* a scoped write through a slice of records changes only LIVE rows, and - unless no record of the
+   slice has a key - only rows whose key one of the records carries and that satisfy the caller's
+   own condition *)
+Lemma keys_update_scope s l q v r :
+  In r s -> In r (fst (hstep s (OUpdate (HAnd (HKeys l) q) v))) \/
+            (live r = true /\ rholds q r = true /\ (named_keys l = [] \/ In (hid r) (named_keys l))).
+Proof.
+  intros Hin. destruct (live r && rholds (HAnd (HKeys l) q) r) eqn:E.
+  - right. apply andb_prop in E. destruct E as [El Eh]. unfold rholds in Eh. cbn [holds] in Eh.
+    apply andb_prop in Eh. destruct Eh as [Ek Eq]. repeat split; [exact El|exact Eq|].
+    destruct (named_keys l) as [|k ks] eqn:En; [left; reflexivity|right].
+    apply existsb_exists in Ek. destruct Ek as [x [Hx Hxe]]. apply Z.eqb_eq in Hxe. subst x. exact Hx.
+  - left. cbn [hstep fst]. apply in_map_iff. exists r. rewrite E. split; [reflexivity|exact Hin].
+Qed.
+
+Lemma keys_delete_scope s l q t r :
+  In r s -> In r (fst (hstep s (ODelete (HAnd (HKeys l) q) t))) \/
+            (live r = true /\ rholds q r = true /\ (named_keys l = [] \/ In (hid r) (named_keys l))).
+Proof.
+  intros Hin. destruct (live r && rholds (HAnd (HKeys l) q) r) eqn:E.
+  - right. apply andb_prop in E. destruct E as [El Eh]. unfold rholds in Eh. cbn [holds] in Eh.
+    apply andb_prop in Eh. destruct Eh as [Ek Eq]. repeat split; [exact El|exact Eq|].
+    destruct (named_keys l) as [|k ks] eqn:En; [left; reflexivity|right].
+    apply existsb_exists in Ek. destruct Ek as [x [Hx Hxe]]. apply Z.eqb_eq in Hxe. subst x. exact Hx.
+  - left. cbn [hstep fst]. apply in_map_iff. exists r. rewrite E. split; [reflexivity|exact Hin].
+Qed.
+
+(* a write that names only marked records changes nothing at all and reports 0 rows *)
+Lemma keys_of_marked_noop s l q v t :
+  named_keys l <> [] ->
+  (forall r, In r s -> In (hid r) (named_keys l) -> live r = false) ->
+  hstep s (OUpdate (HAnd (HKeys l) q) v) = (s, [0]) /\ hstep s (ODelete (HAnd (HKeys l) q) t) = (s, [0]).
+Proof.
+  intros Hne Hm.
+  assert (Hf : forall r, In r s -> live r && rholds (HAnd (HKeys l) q) r = false).
+  { intros r Hin. destruct (live r) eqn:El; [|reflexivity]. cbn [andb]. unfold rholds. cbn [holds].
+    destruct (named_keys l) as [|k ks] eqn:En; [congruence|].
+    destruct (existsb (Z.eqb (hid r)) (k :: ks)) eqn:Ee; [|reflexivity].
+    apply existsb_exists in Ee. destruct Ee as [x [Hx Hxe]]. apply Z.eqb_eq in Hxe. subst x.
+    rewrite (Hm r Hin Hx) in El. discriminate. }
+  assert (Hc : count (fun r => live r && rholds (HAnd (HKeys l) q) r) s = 0).
+  { unfold count. replace (filter _ s) with (@nil hrow); [reflexivity|].
+    clear -Hf. induction s as [|r s IH]; [reflexivity|]. cbn [filter].
+    rewrite (Hf r (or_introl eq_refl)). apply IH. intros x Hx. apply Hf. right. exact Hx. }
+  cbn [hstep]. rewrite Hc. split; f_equal.
+  - clear -Hf. induction s as [|r s IH]; [reflexivity|]. cbn [map].
+    rewrite (Hf r (or_introl eq_refl)). f_equal. apply IH. intros x Hx. apply Hf. right. exact Hx.
+  - clear -Hf. induction s as [|r s IH]; [reflexivity|]. cbn [map].
+    rewrite (Hf r (or_introl eq_refl)). f_equal. apply IH. intros x Hx. apply Hf. right. exact Hx.
+Qed.
